@@ -223,6 +223,12 @@ where
         Self::with_params_and_hash(m, k, buildhasher)
     }
 
+    /// Verification hook (only with `--cfg pdatastructs_verif`): positions of all set bits.
+    #[cfg(pdatastructs_verif)]
+    pub fn verif_bits(&self) -> Vec<usize> {
+        self.bs.ones().collect()
+    }
+
     /// Get `k` (number of hash functions).
     pub fn k(&self) -> usize {
         self.k
